@@ -343,6 +343,101 @@ def _locate(model, tok_id):
     raise core.Rejected(f"token {tok_id} is not in any block")
 
 
+def make_scope(sess, sd):
+    import re
+
+    from gtirb_rewriting.scopes import (
+        ENTRYPOINT_NAME,
+        MAIN_NAME,
+        AllBlocksScope,
+        AllFunctionsScope,
+        BlockPosition,
+        FunctionPosition,
+        SingleBlockScope,
+    )
+
+    def names(lst):
+        if lst is None:
+            return None
+        out = set()
+        for n in lst:
+            if n == "MAIN":
+                out.add(MAIN_NAME)
+            elif n == "ENTRYPOINT":
+                out.add(ENTRYPOINT_NAME)
+            elif isinstance(n, dict):
+                out.add(re.compile(n["re"]))
+            else:
+                out.add(n)
+        return out
+
+    t = sd["t"]
+    if t == "allblocks":
+        return AllBlocksScope(BlockPosition[sd["pos"]], names(sd.get("exclude")))
+    if t == "single":
+        sp, _, _ = _locate(sess.model, sd["tok"])
+        if sp.kind != "code":
+            raise core.Rejected("SingleBlockScope on a data block")
+        return SingleBlockScope(block_by_key(sess.world, sp.key), BlockPosition[sd["pos"]])
+    if t == "allfuncs":
+        return AllFunctionsScope(FunctionPosition[sd["fpos"]], BlockPosition[sd["bpos"]], names(sd.get("functions")))
+    raise KeyError(t)
+
+
+def register_op(sess, ctx, functions, oi):
+    world, model = sess.world, sess.model
+    op = sess.desc["ops"][oi]
+    k = op["k"]
+    if k in ("ins", "del", "rep", "delblock"):
+        key, off, length = resolve_op(model, op)
+        sess.resolved[oi] = (key, off, length)
+        blk = block_by_key(world, key)
+        if k == "ins":
+            p = sess.patches[oi] = SimPatch(sess, oi, op["patch"])
+            ctx.insert_at(blk, off, p)
+        elif k == "rep":
+            if "bytes" in op["patch"]:
+                ctx.replace_at(blk, off, length, bytes.fromhex(op["patch"]["bytes"]))
+            else:
+                p = sess.patches[oi] = SimPatch(sess, oi, op["patch"])
+                ctx.replace_at(blk, off, length, p)
+        elif k == "del":
+            ctx.delete_at(blk, off, length)
+        else:
+            ctx.delete_at(blk, 0, blk.size, retarget_to_proxy=bool(op.get("proxy")))
+        sess.reg_id[oi] = sess.reg_counter
+        sess.reg_counter += 1
+    elif k == "reg":
+        from gtirb_rewriting.rewriting import UnresolvableScopeError
+
+        p = sess.patches[oi] = SimPatch(sess, oi, op["patch"])
+        try:
+            ctx.register_insert(make_scope(sess, op["scope"]), p)
+        except UnresolvableScopeError as e:
+            sess.refused[oi] = "UnresolvableScopeError"
+            return
+        sess.reg_ops[oi] = op
+        sess.reg_id[oi] = sess.reg_counter
+        sess.reg_counter += 1
+    elif k == "insfn":
+        p = sess.patches[oi] = SimPatch(sess, oi, op["patch"])
+        sym = ctx.register_insert_function(op["name"], p)
+        world.syms[op["name"]] = sym
+        sess.insfn.append(oi)
+    elif k == "delfn":
+        fu = world.func_uuid.get(op["func"])
+        fobj = next((f for f in functions if f.uuid == fu), None)
+        if fobj is None:
+            raise core.Rejected("no such function")
+        exp = expand_op(model, op)
+        sess.expanded[oi] = [(key, off, length) for key, off, length, _ in exp]
+        ctx.delete_function(fobj)
+        sess.reg_id[oi] = sess.reg_counter
+        sess.reg_counter += len(exp)
+    else:
+        raise core.HarnessError(f"unknown op kind {k}")
+
+
 def block_by_key(world, key):
     import uuid
 
@@ -407,8 +502,6 @@ def run_session(world, model, sdesc, armed, index, logger=None, gen_cb=None, che
     if not lg.handlers:
         lg.addHandler(logging.NullHandler())
         lg.propagate = False
-    ctx = gtirb_rewriting.RewritingContext(m, functions, logger=lg)
-    sess.ctx = ctx
     ops = sdesc["ops"]
     order = sdesc.get("reg_order") or list(range(len(ops)))
     sess.resolved = {}
@@ -416,55 +509,62 @@ def run_session(world, model, sdesc, armed, index, logger=None, gen_cb=None, che
     sess.expanded = {}
     sess.patches = {}
     sess.reg_id = {}
-    reg_counter = 0
-    for oi in order:
-        op = ops[oi]
-        k = op["k"]
-        if k in ("ins", "del", "rep", "delblock"):
-            key, off, length = resolve_op(model, op)
-            sess.resolved[oi] = (key, off, length)
-            blk = block_by_key(world, key)
-            if k == "ins":
-                p = sess.patches[oi] = SimPatch(sess, oi, op["patch"])
-                ctx.insert_at(blk, off, p)
-            elif k == "rep":
-                if "bytes" in op["patch"]:
-                    ctx.replace_at(blk, off, length, bytes.fromhex(op["patch"]["bytes"]))
-                else:
-                    p = sess.patches[oi] = SimPatch(sess, oi, op["patch"])
-                    ctx.replace_at(blk, off, length, p)
-            elif k == "del":
-                ctx.delete_at(blk, off, length)
-            else:
-                ctx.delete_at(blk, 0, blk.size, retarget_to_proxy=bool(op.get("proxy")))
-            sess.reg_id[oi] = reg_counter
-            reg_counter += 1
-        elif k == "insfn":
-            p = sess.patches[oi] = SimPatch(sess, oi, op["patch"])
-            sym = ctx.register_insert_function(op["name"], p)
-            world.syms[op["name"]] = sym
-            sess.insfn.append(oi)
-        elif k == "delfn":
-            fu = world.func_uuid.get(op["func"])
-            fobj = next((f for f in functions if f.uuid == fu), None)
-            if fobj is None:
-                raise core.Rejected("no such function")
-            exp = expand_op(model, op)
-            sess.expanded[oi] = [(key, off, length) for key, off, length, _ in exp]
-            ctx.delete_function(fobj)
-            sess.reg_id[oi] = reg_counter
-            reg_counter += len(exp)
-        else:
-            raise core.HarnessError(f"unknown op kind {k}")
+    sess.reg_ops = {}
+    sess.refused = {}
+    sess.reg_counter = 0
+    sess.ctx_functions = functions
+
+    def register(ctx, functions, indices):
+        for oi in indices:
+            register_op(sess, ctx, functions, oi)
+
+    if sdesc.get("mode") == "pm":
+        from gtirb_rewriting.passes import Pass, PassManager
+
+        class SimPass(Pass):
+            def __init__(self, indices, pi):
+                self.indices = indices
+                self.pi = pi
+
+            def begin_module(self, module, functions, rewriting_ctx):
+                sess.ctx = rewriting_ctx
+                sess.ctx_functions = functions
+                fk = (sess.fault_plan.get("begin_module") or {}).get(str(self.pi))
+                if fk:
+                    sess.fired["begin_module-raise"] += 1
+                    raise InjectedFault(f"begin_module of pass {self.pi}")
+                register(rewriting_ctx, functions, self.indices)
+
+            def end_module(self, module, functions):
+                fk = (sess.fault_plan.get("end_module") or {}).get(str(self.pi))
+                if fk:
+                    sess.fired["end_module-raise"] += 1
+                    raise InjectedFault(f"end_module of pass {self.pi}")
+
+        pm = PassManager(logger=lg)
+        for pi, indices in enumerate(sdesc.get("passes") or [order]):
+            pm.add(SimPass(indices, pi))
+        runner = lambda: pm.run(world.ir)
+    else:
+        ctx = gtirb_rewriting.RewritingContext(m, functions, logger=lg)
+        sess.ctx = ctx
+        register(ctx, functions, order)
+        runner = ctx.apply
+    if armed == "C07":
+        from . import oracles
+
+        sess.c07_expected = oracles.c07_expected(sess)
     sess.pre_blocks = {b.uuid for b in m.byte_blocks}
     sess.orig_cfg = world.ir.cfg
     sess.pre_symbol_refs = {s.uuid: s.referent is not None for s in m.symbols}
     sess.cache_cfg = None
     with instrumented(sess):
         try:
-            ctx.apply()
+            runner()
         except InjectedFault as e:
             sess.error = e
+        except (core.Rejected, core.Desync, core.HarnessError):
+            raise
         except Exception as e:  # unexpected: reported by the armed oracle
             sess.error = e
     return sess
@@ -478,16 +578,26 @@ def apply_to_model(sess):
     ops = sess.desc["ops"]
     caps = {}
     for c in sess.captures:
-        caps.setdefault(c["op"], []).append(c)
+        if ops[c["op"]]["k"] != "reg":
+            caps.setdefault(c["op"], []).append(c)
     mods = []
     for oi, (key, off, length) in sess.resolved.items():
         sp = model.spans[key]
-        mods.append(((model.section_order.index(sp.sect), _unit_rank(model, sp), sp.start), off, sess.reg_id[oi], oi, key, length))
+        mods.append(((model.section_order.index(sp.sect), _unit_rank(model, sp), sp.start), off, sess.reg_id[oi], oi, key, length, None))
     for oi, lst in sess.expanded.items():
         for n, (key, off, length) in enumerate(lst):
             sp = model.spans[key]
-            mods.append(((model.section_order.index(sp.sect), _unit_rank(model, sp), sp.start), off, sess.reg_id[oi] + n, oi, key, length))
-    mods.sort()
+            mods.append(((model.section_order.index(sp.sect), _unit_rank(model, sp), sp.start), off, sess.reg_id[oi] + n, oi, key, length, None))
+    # scope-based insertions: the model takes block and offset from the
+    # InsertionContext the patch received (their legality is C07's oracle)
+    for c in sess.captures:
+        oi = c["op"]
+        if ops[oi]["k"] == "reg":
+            sp = model.spans.get(c["block"])
+            if sp is None:
+                raise core.Desync("scope-based patch invoked for a block that did not exist at the start of the session")
+            mods.append(((model.section_order.index(sp.sect), _unit_rank(model, sp), sp.start), c["offset"], sess.reg_id[oi], oi, c["block"], 0, c))
+    mods.sort(key=lambda x: (x[0], x[1], x[2], x[3]))
     md = world.isa.cs()
     # inserted functions come first, each in a new unit at the end of .text
     for oi in sess.insfn:
@@ -512,7 +622,7 @@ def apply_to_model(sess):
                 t.func = fid
         head = [Tok("label", "L:" + op["name"], name=op["name"], origin=("insfn", oi)), Tok("entry", ("entry", "new", oi), func=fid)]
         model.add_unit(".text", head + toks)
-    for _, off, rid, oi, key, length in mods:
+    for _, off, rid, oi, key, length, rcap in mods:
         op = ops[oi]
         k = op["k"]
         if k == "delfn":
@@ -526,10 +636,13 @@ def apply_to_model(sess):
             toks = [Tok("data", model.fresh_id(f"s{sess.index}o{oi}b"), b=bytes.fromhex(op["patch"]["bytes"]), origin=("bytes", oi))]
             other = {}
         else:
-            lst = caps.get(oi) or []
-            if not lst:
-                raise core.Desync(f"patch of op {oi} was never invoked")
-            c = lst.pop(0)
+            if rcap is not None:
+                c = rcap
+            else:
+                lst = caps.get(oi) or []
+                if not lst:
+                    raise core.Desync(f"patch of op {oi} was never invoked")
+                c = lst.pop(0)
             if c["cap"] is None:
                 continue  # get_asm returned nothing: no insertion
             cap = c["cap"]
